@@ -6,8 +6,9 @@ MUTANTS = ["deleteRemovesAllMatches", "insertOffByOne", "replaceAppends", "error
 CHUNK = 12000
 
 
-def params(ctx, obs="/dev/null"):
-    return {"TreesFile": ctx.path("trees.ndjson"), "SchemaFile": ctx.path("schema.json"), "ObsFile": obs}
+def write_run_params(ctx):
+    """C18_Params.tla of this run: the files `c18 gen` writes (Params.tla itself is the driver's)."""
+    D.write_params(ctx, {"TreesFile": ctx.path("trees.ndjson"), "SchemaFile": ctx.path("schema.json")}, name="C18_Params")
 
 
 def flatten(records):
@@ -26,7 +27,7 @@ def judge_all(ctx, obs, tag="judge"):
     for n, i in enumerate(range(0, len(obs), CHUNK)):
         path = ctx.path("%s-%03d.ndjson" % (tag, n))
         D.write_ndjson(path, obs[i:i + CHUNK])
-        recs = D.judge(ctx, "C18_Judge", "C18_judge.cfg", path, params=params(ctx), tag="%s-%03d" % (tag, n))
+        recs = D.judge(ctx, "C18_Judge", "C18_judge.cfg", path, tag="%s-%03d" % (tag, n))
         verdicts.extend(flatten(recs))
         if not ctx.keep:
             os.remove(path)
@@ -60,7 +61,8 @@ def to_case(o):
 def run(ctx):
     binary = D.build_harness(ctx, "c18")
     rng = random.Random(ctx.seed)
-    D.stage_spec(ctx, params=params(ctx))
+    D.stage_spec(ctx, params={"ObsFile": "/dev/null"})
+    write_run_params(ctx)
     replay = getattr(ctx, "replay", None)
     # the harness annotates the model resources, derives the schema from the google/fhir descriptors and
     # enumerates the single operations of MR1..MR4 (every element path x form x operation x value x index)
@@ -111,7 +113,13 @@ def run(ctx):
             raise D.Inconclusive("dead driver: no successful mutation or no failing operation among %d calls" % len(steps))
     keys = [(s["op"], s.get("form", ""), s.get("vlabel", ""), s["out"]["k"], s["eq"]) for o in obs for s in o["steps"]]
     changed = sum(1 for o in obs if any(s["out"]["k"] == "ok" and not s["eq"] for s in o["steps"]))
-    sample_ids = list(by_step)[:: max(1, len(by_step) // 5)]
+    sample_ids = []
+    for want in [("add", "ok"), ("insert", "ok"), ("delete", "ok"), ("replace", "ok"), ("replace", "err"), ("move", "err")]:
+        for i, o in by_step.items():
+            s = o["steps"][-1]
+            if (s["op"], s["out"]["k"]) == want and (want[1] == "err" or not s["eq"]):
+                sample_ids.append(i)
+                break
     return D.finish(
         ctx, verdicts, by_step, evaluations=len(by_step),
         rule="one record per patch call; distinct = (operation, path form, value class, outcome kind, resource changed); "
@@ -119,7 +127,8 @@ def run(ctx):
              "M0, M2, MR1..MR4 (%d enumerated, %d kept in this tier), behaviours of the TLC model on M0, seeded sequences and inverse pairs"
              % (len(obs), changed, gen.get("enumerated", 0), gen.get("kept", 0)),
         nontrivial_keys=keys,
-        samples=[{"src": by_step[i]["src"], "out": by_step[i]["out"]} for i in sample_ids],
+        samples=[{"res": by_step[i]["res"], "call": by_step[i]["src"], "value": by_step[i]["val"], "out": by_step[i]["out"],
+                  "resource_changed": not by_step[i]["steps"][-1]["eq"]} for i in sample_ids],
         exhaustive=False,
         assumptions=["content hashes (sha256, 64 bits kept) identify subtrees: pruned post-trees are reconstructed by the judge from verified hints",
                      "value arguments are clones of elements of the donor resources or fresh primitives; typed-nil arguments and nil options are outside the quantifier"])
